@@ -406,6 +406,13 @@ func cmdCheck(args []string) int {
 	// (labelled bounded, never counted as proved); a failing case is a violation with its input
 	standins := runBoundedStandins(prop)
 	for _, si := range standins {
+		if kf := matchesKnown(known, prop, "bounded:"+fmt.Sprint(si["function"])); kf != nil && si["result"] == "violation" {
+			// a listed finding shown by a bounded stand-in: exactly the listed set of failures (witness_match), nothing else
+			if re, err := regexp.Compile(kf.WitnessMatch); err == nil && kf.WitnessMatch != "" && re.MatchString(fmt.Sprint(si["failing_input"])) {
+				knownHit = append(knownHit, fmt.Sprintf("KNOWN-FINDING: property=%s bounded:%s fails (bounded check of the real code): %s", prop, si["function"], kf.Witness))
+				si["result"] = "known finding: " + kf.Witness
+			}
+		}
 		if si["result"] == "violation" {
 			nviol++
 			content := map[string]interface{}{"obligation": "bounded:" + fmt.Sprint(si["function"]), "kind": "bounded", "result": "counterexample found on the real code",
@@ -421,8 +428,10 @@ func cmdCheck(args []string) int {
 	// thorough tier: every bounded search harness that belongs to this property's obligations is also run on the tree as it
 	// is (not only when an obligation fails): a counterexample found this way is a violation of its own. Harnesses that
 	// demonstrate an OPEN known finding are skipped (they would re-report it).
-	if *tier == "thorough" {
-		for _, hs := range runHarnessSweep(prop, pr, known) {
+	// quick tier: only the harnesses that demonstrate an OPEN known finding of this property are run, so that every listed
+	// finding is re-demonstrated (and printed) on every run and is noticed when it disappears or changes shape
+	{
+		for _, hs := range runHarnessSweep(prop, pr, known, *tier != "thorough") {
 			if kf := matchesKnown(known, prop, "harness:"+fmt.Sprint(hs["harness_run"])); kf != nil && hs["result"] == "violation" {
 				if re, err := regexp.Compile(kf.WitnessMatch); err == nil && kf.WitnessMatch != "" && re.MatchString(fmt.Sprint(hs["failing_input"])) {
 					knownHit = append(knownHit, fmt.Sprintf("KNOWN-FINDING: property=%s harness:%s fails (bounded search on the real code): %s", prop, hs["harness_run"], kf.Witness))
@@ -960,7 +969,7 @@ var harnessSweep []map[string]interface{}
 
 // runHarnessSweep runs, once each, the search harnesses of /verif/replay/families.json whose pattern matches an obligation of
 // this property run, except those whose obligations are an open known finding.
-func runHarnessSweep(prop string, pr *PropRun, known []KnownFinding) []map[string]interface{} {
+func runHarnessSweep(prop string, pr *PropRun, known []KnownFinding, onlyKnown bool) []map[string]interface{} {
 	b, err := os.ReadFile(filepath.Join(verifDir, "replay", "families.json"))
 	if err != nil {
 		return nil
@@ -978,6 +987,9 @@ func runHarnessSweep(prop string, pr *PropRun, known []KnownFinding) []map[strin
 		}
 		key := fam.Pkg + "/" + fam.File + "/" + fam.Run
 		if done[key] {
+			continue
+		}
+		if onlyKnown && matchesKnown(known, prop, "harness:"+fam.Run) == nil {
 			continue
 		}
 		if len(fam.Props) > 0 {
